@@ -10,6 +10,8 @@ from sa.guards import names_in
 from sa.index import own_nodes
 from sa.report import Ctx
 
+from .common import generic_sweeps
+
 EXPLANATION = (
     "Decides structural necessary conditions of 'feasible flow of maximum value' on flow.py::max_flow: (O1) residual "
     "symmetry - the adjacency container whose keys the augmenting-path search iterates is written with both "
@@ -128,6 +130,7 @@ def run(ctx: Ctx):
             ctx.ob("C08-O4", "R5 PAIRING", f, "solution = exactly the positive entries of the flow map", ok, "", node=s.call)
     pooled = any(isinstance(s, ast.AugAssign) and isinstance(s.op, ast.Add) and ast.unparse(s.target) == "capacity[u][v]" for s in own_nodes(f.node))
     ctx.ob("C08-O4", "R18 SIBLING-AGREEMENT (policy)", f, "parallel arcs are pooled on input (capacity accumulates)", pooled, "", node=f.node)
+    generic_sweeps(ctx)
 
 
 # ---------------------------------------------------------------------------------------------
